@@ -63,8 +63,42 @@ def replayer_modes(extra, path):
     return r
 
 
+def timeout_heavy_trace(args):
+    """More than 100 timed-out acquires while live waiters are queued: crosses the lazy clean-up of
+    _TimeoutGarbageCollector (every 100 timeouts), then releases - grants must still be oldest-first."""
+    tid, seed, nw, length = args
+    rng = random.Random(seed)
+    kind = rng.choice(["sem", "bounded", "lock"])
+    cfg = {"kind": kind, "init": 1}
+    real = SemReal(cfg, nw, absolute=rng.random() < 0.5)
+    ev = []
+    nxt = 1
+
+    def do(a, args_):
+        ev.append({"a": a, "args": args_, "obs": real.step(a, args_)})
+    try:
+        do("acquire", [nxt, NOTO]); nxt += 1                     # takes the permit
+        live = rng.choice([2, 3, 4])
+        n_to = rng.choice([101, 103, 110])
+        placed = 0
+        for k in range(n_to):
+            if placed < live and rng.random() < 0.5 * (placed + 1) / (k + 1) + (0.6 if k in (0, 50, 100) else 0):
+                do("acquire", [nxt, NOTO]); nxt += 1; placed += 1
+            do("acquire", [nxt, 1]); nxt += 1
+            do("advance", [1])
+        while placed < live:
+            do("acquire", [nxt, NOTO]); nxt += 1; placed += 1
+        for _ in range(live + 2):
+            do("release", [])
+        return {"id": tid, "cfg": cfg, "ev": ev}
+    finally:
+        real.close()
+
+
 def random_trace(args):
     tid, seed, nw, length = args
+    if tid % 12 == 0:
+        return timeout_heavy_trace(args)
     rng = random.Random(seed)
     kind = rng.choice(["sem", "sem", "bounded", "lock"])
     init = 1 if kind == "lock" else rng.choice([0, 1, 2, 3])
@@ -107,20 +141,20 @@ def run(ctx):
            overrides=ctx.pick({}, {"NW": 5, "Timeouts": "{0, 1, 2, 3, 999}", "MaxAdvance": 3}),
            required_actions=["Acquire", "Release", "Advance", "Cancel"])
     # 2. spec -> code: all paths up to L
-    L = ctx.pick(5, 7)
+    L = ctx.pick(5, 6)
     paths = ctx.gen_paths("sync", "Gen_Semaphore", "Gen_Semaphore.cfg", overrides={"L": L})
     ctx.replay(paths, replayer, nontrivial=lambda e, p: len(p) >= 2 and any(s["act"] != "advance" for s in p))
     ctx.cov["exhaustive"] = True
     paths_m = ctx.gen_paths("sync", "Gen_Semaphore", "Gen_Semaphore.cfg", overrides={"L": L - 1})
     ctx.replay(paths_m, replayer_modes, label="s2c-modes")
     # long seeded walks through larger constants
-    sims = ctx.sim_paths("sync", "Gen_Semaphore", "Gen_Semaphore.cfg", num=ctx.pick(200, 3000), depth=40,
+    sims = ctx.sim_paths("sync", "Gen_Semaphore", "Gen_Semaphore.cfg", num=ctx.pick(200, 1500), depth=40,
                          overrides={"L": 40, "NW": 4, "MaxValue": 6})
     ctx.replay(sims, replayer, label="s2c-sim")
     ctx.replay(sims, replayer_modes, label="s2c-sim-modes")
     # 3. code -> spec: random recorded runs validated by TLC
-    n = ctx.pick(300, 5000)
-    nw = 70
+    n = ctx.pick(300, 3000)
+    nw = 120
     jobs = [(i + 1, ctx.seed * 1000003 + i, nw, ctx.pick(120, 220)) for i in range(n)]
     traces = framework.pool_map(random_trace, jobs)
     ctx.validate("sync", "Trace_Semaphore", "Trace_Semaphore.cfg", traces, overrides={"NW": nw})
